@@ -10,6 +10,8 @@
 -/
 import TypedpyModel.Lemmas.Sound
 import TypedpyModel.Sem.Entry
+import TypedpyModel.Lemmas.Formats
+import TypedpyModel.Sem.Decimal
 namespace Typedpy.C01
 open Typedpy
 
@@ -157,6 +159,129 @@ theorem hook_example :
           [("a", .integer {}), ("b", .anyOf [.boolean, .noneF])] []) (.inst "A" [("a", .int 1), ("b", .bool false)])
           [.deepcopy, .shallowClone [("a", .int 2)], .castTo] with
       | .ok (.inst "A" _) => true | _ => false) = true := by
+  decide
+
+/-! ### what well-formedness says about one field; the extension string fields -/
+
+/-- in a well-formed instance every declared field that is set conforms to its declaration -/
+theorem c01_fieldsConform_mem (O : Oracles) (attrs : List (String × PyVal)) :
+    ∀ fs : List (String × FieldDecl), fieldsConform O attrs fs = true →
+      ∀ name f, (name, f) ∈ fs → ∀ v, lookup name attrs = some v → conforms O f v = true
+  | [], _, _, _, hm, _, _ => by cases hm
+  | (n, g) :: rest, h, name, f, hm, v, hl => by
+    simp only [fieldsConform, and_true_iff] at h
+    rcases List.mem_cons.1 hm with heq | hm'
+    · cases heq
+      have := h.1
+      rw [hl] at this
+      exact this
+    · exact c01_fieldsConform_mem O attrs rest h.2 name f hm' v hl
+
+theorem wellFormed_field (O : Oracles) (c : ClassOpts) (fields : List (String × FieldDecl))
+    (defaults : List (String × PyVal)) (x : PyVal) (h : wellFormed O (.struct c fields defaults) x = true)
+    (name : String) (f : FieldDecl) (hm : (name, f) ∈ fields) (v : PyVal)
+    (hl : lookup name (instAttrs x) = some v) : conforms O f v = true := by
+  simp only [wellFormed, cInline] at h
+  cases x <;> simp at h
+  simp only [wfAttrs, and_true_iff] at h
+  exact c01_fieldsConform_mem O _ fields h.2.1.2 name f hm v hl
+
+/-- **formatted strings (IPV4)**: whatever a chain of validating entry points yields, a field declared IPV4 that is set
+    holds a string of the documented language (four octets 0..255 of ASCII digits joined by single dots), provided
+    the oracle decides the token as the model's own `ipv4Ok` does (the driver's oracle does: `fmtMatch`) -/
+theorem chain_ipv4_field_sound (O : Oracles) (hO : ∀ s, O.reMatch ipv4Token s = ipv4Ok s)
+    (c : ClassOpts) (fields : List (String × FieldDecl)) (defaults kw : List (String × PyVal))
+    (chain : List EntryOp) (x y : PyVal) (hw : wfDecl (.struct c fields defaults) = true)
+    (h1 : construct O (.struct c fields defaults) kw = .ok x)
+    (h2 : runChain O (.struct c fields defaults) x chain = .ok y)
+    (name : String) (lo hi : Option Nat) (hm : (name, .string lo hi (some ipv4Token)) ∈ fields)
+    (v : PyVal) (hl : lookup name (instAttrs y) = some v) :
+    ∃ s, v = .str s ∧ IsIPv4 s ∧ geLen lo s.length = true ∧ leLen hi s.length = true := by
+  have hy := construct_then_chain_sound O _ kw chain x y hw h1 h2
+  have hc := wellFormed_field O c fields defaults y hy name _ hm v hl
+  simp only [conforms, aString] at hc
+  cases v <;> simp at hc
+  rename_i s
+  simp only [patOk, hO, ipv4Ok_iff] at hc
+  exact ⟨s, rfl, hc.2, hc.1.1, hc.1.2⟩
+
+/-- the same for HostName (RFC 952/1123 names) -/
+theorem chain_hostname_field_sound (O : Oracles) (hO : ∀ s, O.reMatch hostNameToken s = hostNameOk s)
+    (c : ClassOpts) (fields : List (String × FieldDecl)) (defaults kw : List (String × PyVal))
+    (chain : List EntryOp) (x y : PyVal) (hw : wfDecl (.struct c fields defaults) = true)
+    (h1 : construct O (.struct c fields defaults) kw = .ok x)
+    (h2 : runChain O (.struct c fields defaults) x chain = .ok y)
+    (name : String) (lo hi : Option Nat) (hm : (name, .string lo hi (some hostNameToken)) ∈ fields)
+    (v : PyVal) (hl : lookup name (instAttrs y) = some v) :
+    ∃ s, v = .str s ∧ IsHostName s ∧ geLen lo s.length = true ∧ leLen hi s.length = true := by
+  have hy := construct_then_chain_sound O _ kw chain x y hw h1 h2
+  have hc := wellFormed_field O c fields defaults y hy name _ hm v hl
+  simp only [conforms, aString] at hc
+  cases v <;> simp at hc
+  rename_i s
+  simp only [patOk, hO, hostNameOk_iff] at hc
+  exact ⟨s, rfl, hc.2, hc.1.1, hc.1.2⟩
+
+/-- **SizedString** (`maxlen = m` next to `maxLength = hi`: the tighter bound decides): whatever a chain of validating
+    entry points yields, the field holds a string of at most `m` and at most `hi` characters -/
+theorem chain_sized_field_sound (O : Oracles)
+    (c : ClassOpts) (fields : List (String × FieldDecl)) (defaults kw : List (String × PyVal))
+    (chain : List EntryOp) (x y : PyVal) (hw : wfDecl (.struct c fields defaults) = true)
+    (h1 : construct O (.struct c fields defaults) kw = .ok x)
+    (h2 : runChain O (.struct c fields defaults) x chain = .ok y)
+    (name : String) (lo : Option Nat) (hi m : Nat) (pat : Option String)
+    (hm : (name, .string lo (some (min hi m)) pat) ∈ fields)
+    (v : PyVal) (hl : lookup name (instAttrs y) = some v) :
+    ∃ s, v = .str s ∧ s.length ≤ m ∧ s.length ≤ hi := by
+  have hy := construct_then_chain_sound O _ kw chain x y hw h1 h2
+  have hc := wellFormed_field O c fields defaults y hy name _ hm v hl
+  simp only [conforms, aString] at hc
+  cases v <;> simp at hc
+  rename_i s
+  have := hc.1.2
+  simp [leLen] at this
+  exact ⟨s, rfl, by omega, by omega⟩
+
+/-- **DecimalNumber**: whatever the field stores is a Decimal that satisfies the declared multiplesOf / minimum /
+    maximum / exclusiveMaximum (`conforms` of the `number` declaration the field stands for) -/
+theorem decimal_field_sound (parse : String → Option Q) (O : Oracles) (o : NumOpts) (v w : PyVal)
+    (h : vDecimal parse o v = .ok w) : conforms O (.number o) w = true ∧ ∃ q, w = .dec q := by
+  unfold vDecimal at h
+  rcases bindE_eq_ok h with ⟨d, hd, h2⟩
+  unfold toDecimal at hd
+  cases hq : decValue parse v <;> rw [hq] at hd <;> simp at hd
+  subst hd
+  have := validate_sound O (.number o) _ w rfl (by simpa [validate] using h2)
+  refine ⟨this, ?_⟩
+  simp only [vNumber, PyVal.asNum] at h2
+  split at h2 <;> simp at h2
+  exact ⟨_, h2.symm⟩
+
+/-- a class with DecimalNumber fields (the conversion layer in front of the constructor): whatever it returns is
+    well-formed for the class and accepted by the class's hook -/
+theorem constructD_sound (parse : String → Option Q) (O : Oracles) (cls : FieldDecl) (decs : List (String × DecPos))
+    (kw : List (String × PyVal)) (x : PyVal) (hw : wfDecl cls = true)
+    (h : constructD parse O cls decs kw = .ok x) :
+    wellFormed O cls x = true ∧ O.hookOk (instAttrs x) = true := by
+  unfold constructD at h
+  rcases bindE_eq_ok h with ⟨kw', _, h2⟩
+  exact constructH_sound O cls kw' x hw h2
+
+/-- non-vacuity: a class with an IPV4 array and a SizedString, through constructor and clone -/
+theorem formatted_example :
+    let O : Oracles := { reMatch := fmtMatch fun _ _ => false }
+    let cls : FieldDecl := .struct { name := "A", required := ["ips"], addl := false, accepts := ["A"] }
+        [("ips", .seqOf .list (.string none none (some ipv4Token)) {}), ("tag", .string none (some (min 5 3)) none)] []
+    wfDecl cls = true
+    ∧ (match construct O cls [("ips", .list [.str "1.2.3.4", .str "255.0.0.1"]), ("tag", .str "abc")] with
+        | .ok x => wellFormed O cls x | .error _ => false) = true
+    ∧ (match construct O cls [("ips", .list [.str "1.2.3.4", .str "256.0.0.1"])] with
+        | .error .valueErr => true | _ => false) = true
+    ∧ (match construct O cls [("ips", .list [.str "1.2.3.4\n"])] with | .error .valueErr => true | _ => false) = true
+    ∧ (match runChain O cls (.inst "A" [("ips", .list [.str "1.2.3.4"])]) [.shallowClone [("tag", .str "abcd")]] with
+        | .error .valueErr => true | _ => false) = true
+    ∧ wellFormed O cls (.inst "A" [("ips", .list [.str "1.2.3"])]) = false
+    ∧ wellFormed O cls (.inst "A" [("ips", .list []), ("tag", .str "abcd")]) = false := by
   decide
 
 /-! ### non-vacuity -/
